@@ -1747,6 +1747,25 @@ impl World {
                             }
                         }
                     }
+                    // a replica that melds from the damaged one must not store anything under a name its bytes do not hash to
+                    let rx_store = SimStore::new();
+                    if let Ok(mut rx) = Melda::new(rx_store.dyn_adapter()) {
+                        let _ = catch_unwind(AssertUnwindSafe(|| rx.meld(&live)));
+                        for (name, bytes) in rx_store.snapshot() {
+                            let good = if let Some(d) = name.strip_suffix(".pack") {
+                                digest_bytes(&bytes) == d
+                            } else if let Some(d) = name.strip_suffix(".delta") {
+                                d.splitn(2, '-').nth(1).map(|x| digest_bytes(&bytes) == x).unwrap_or(false)
+                            } else {
+                                true
+                            };
+                            if !good {
+                                fails.push(("C11", format!("meld from a replica whose {} was damaged after loading stored item {} whose bytes do not hash to its name", k, name)));
+                                fails.push(("C10", format!("meld from a replica whose {} was damaged after loading stored item {} whose bytes do not hash to its name", k, name)));
+                            }
+                        }
+                        *self.stats.entry("meld_from_damaged".into()).or_insert(0) += 1;
+                    }
                     st.put_raw(&k, items[&k].clone());
                 }
             }
@@ -1843,6 +1862,11 @@ impl World {
             let f = fresh_obs(&union);
             if &f != a {
                 fails.push(("C01", format!("a fresh replica on a file copy differs from the synchronised replicas: {}", first_diff(a, &f))));
+            }
+            // the same items once more: every hash table of the new replica is seeded independently
+            let f2 = fresh_obs(&union);
+            if f2 != f {
+                fails.push(("C18", format!("two fresh replicas on the same items differ (independently seeded hash tables): {}", first_diff(&f, &f2))));
             }
             // the same items listed by storage in other orders
             for perm in [123457u64, 987654321, 0xABCDEF ^ self.op_index as u64] {
